@@ -271,7 +271,64 @@ def table_owners(ctx) -> None:
             ctx.check(ch.split('.')[2] in ('set', 'reset'), 'C01.owner', add, 'Table.add registers through set/reset only', c)
 
 
+# every refusal on the compile path, confirmed by reading: function -> [(kind, condition)] (assert: the asserted test; raise:
+# its canonical guards).  A new or changed refusal makes some valid segment uncompilable ("every valid segment compiles"),
+# a dropped one is judged by the rule that needs it.
+REFUSALS = {
+    f'{COMPILER}:Table.Linkage.leaves': [('assert', 'children')],
+    f'{COMPILER}:Table.Linkage.insert': [('assert', 'argcnt <= 1'), ('assert', 'index >= 0'), ('assert', 'not args[index]')],
+    f'{COMPILER}:Table.Index.set': [('assert', 'key not in self')],
+    f'{COMPILER}:Table.__iter__': [('raise', "_exception.AssemblyError [('instruction in stubs', False)]")],
+    f'{COMPILER}:Table.__iter__.merge.pick': [('assert', 'not (left and right)')],
+    f'{COMPILER}:Table.add': [('assert', 'node.uid not in self._index'), ('assert', 'isinstance(node, atomic.Worker)')],
+    'forml.flow._code.target:Instruction.__call__': [('raise', 'err []')],
+    'forml.flow._code.target:Symbol.__new__': [('raise', "_exception.AssemblyError [('all(arguments)', False)]")],
+}
+
+
+def refusals(ctx) -> None:
+    prog = ctx.prog
+    n = 0
+    for fn in prog.functions([m for m in prog.modules if m.startswith('forml.flow._code')]):
+        got = []
+        for r in core.walk_local(fn.node):
+            if isinstance(r, ast.Raise):
+                got.append(('raise', f'{core.src(r.exc).split("(")[0] if r.exc else None} {sorted(cfg.cguards(r, fn.node, siblings=True))}', r))
+            elif isinstance(r, ast.Assert):
+                got.append(('assert', core.src(r.test), r))
+        want = list(REFUSALS.get(fn.ref, []))
+        for kind, cond, node in got:
+            n += 1
+            if (kind, cond) in want:
+                want.remove((kind, cond))
+                ctx.ok('C01.refusals', fn, f'confirmed refusal: {kind} {cond}', node)
+            else:
+                ctx.fail('C01.refusals', fn, f'a refusal not among the confirmed ones of the compile path: {kind} `{cond}` - a valid segment hitting it can no longer be compiled (confirmed for this function: {REFUSALS.get(fn.ref, [])})', node, key=f'refusal:{kind}:{cond}')
+    ctx.floor('C01.refusals', n, 8)
+
+
+def presets(ctx) -> None:
+    """A state preset is applied whenever it is executed - for the functor about to train just like for the applying forks
+    (incremental training continues from the loaded state) - and never costs the builder's hyper-parameters."""
+    prog = ctx.prog
+    st = prog.func(f'{USER}:SetState.set')
+    a, v = st.param_names[1:3]
+    body = [core.src(x) for x in st.body if not (isinstance(x, ast.Expr) and (isinstance(x.value, ast.Constant) or core.src(x).startswith('LOGGER.')))]
+    ctx.check(body == [f'params = {a}.get_params()', f'{a}.set_state({v})', f'{a}.set_params(**params)'], 'C01.presets', st, f'SetState.set = remember the params, load the state, restore the params - unconditionally ({body})', st.node, key='SetState.set')
+    sp = prog.func(f'{USER}:SetParams.set')
+    a, v = sp.param_names[1:3]
+    body = [core.src(x) for x in sp.body if not (isinstance(x, ast.Expr) and (isinstance(x.value, ast.Constant) or core.src(x).startswith('LOGGER.')))]
+    ctx.check(body == [f'{a}.set_params(**{v})'], 'C01.presets', sp, f'SetParams.set applies the given params ({body})', sp.node, key='SetParams.set')
+    # one action object per functor: sharing an action instance between nodes makes structurally equal functors *identical*
+    # instructions (Index.instructions groups adjacent keys by instruction equality), folding two tasks into one
+    add = prog.func(f'{COMPILER}:Table.add')
+    fresh = [c for c in core.calls_in(add.node) if core.src(c.func) in ('user.Apply', 'user.Train')]
+    ctx.check(len(fresh) >= 2 and not any('self._' in core.src(x) and core.call_tail(x) == 'functor' for x in core.calls_in(add.node) if isinstance(x.func, ast.Attribute)), 'C01.presets', add, 'every compiled node gets its own freshly created action (user.Apply() / user.Train()) - no action object stored on the table and shared', add.node, key='add:fresh-actions')
+
+
 def run(ctx) -> None:
+    refusals(ctx)
+    presets(ctx)
     emission(ctx)
     table_owners(ctx)
     port_order(ctx)
